@@ -5,12 +5,16 @@
 //      access outside.
 //   R: on the compiled trees of walk_rt.h (real rRecur/rRecurp/rRecurs/rRecursp/rSelf/
 //      rEnabledBy macros) with a runtime object configured from the op line.
+//   D: on a dynamically built table with a runtime object: an abstract object tree from the op line;
+//      the harness' own callbacks answer the "pointer" and "enabled by" queries from it.
 //   T: prints the shape of a compiled tree (used by tools/props/c09.py only).
-// Observables: the (port, address) pairs handed to the walker callback (as a sorted list: the
-// property fixes no order), the string
-// in the buffer afterwards, and for every pair which leaf callbacks run when the address is
-// sent back as a message (W: Ports::dispatch without location buffer and the harness' own
-// callbacks; R: Ports::dispatch with location buffer and the sugar callbacks).
+//   Trailing tokens of W and R:  sz=<n> the buffer_size argument (default: the size of the block);
+//      opt=<pairs> reports that the statement leaves open, dropped from the output.
+// Observables: the (port, address) pairs handed to the walker callback, as a sorted list (the
+// property fixes no order); the string in the buffer afterwards; for every pair which leaf
+// callbacks run when the address is sent back as a message (W: Ports::dispatch without location
+// buffer and the harness' own callbacks; R: Ports::dispatch with location buffer and the sugar
+// callbacks).
 // Protocol: see lean/Driver/WalkEngine.lean.
 #include "common.h"
 #include "walk_rt.h"
@@ -78,17 +82,36 @@ static bool parse_port(const std::string &s, size_t &i, Tree &t, DynPorts *into,
     }
     i = j + 1;
     const char *nm = t.keep(name, true);
+    // With a runtime object (op D: RtData::obj points to a wrt::Spec) the callbacks behave like
+    // port-sugar's: a leaf replies its value ("T"/"F" if its type part has a 'T', else "i"), a
+    // sub-tree port replaces the object by its child object (or NULL) and hands the rest on.
     if (i < s.size() && s[i] == '0') {
         ++i;
-        into->add(rtosc::Port{nm, md, nullptr, [ixs](const char *, rtosc::RtData &) { g_hits.push_back(ixs); }});
+        std::string key;
+        for (unsigned char c : name) { if (c == ':') break; key.push_back((char)c); }
+        bool toggle = false, colon = false;
+        for (unsigned char c : name) { if (c == ':') colon = true; else if (colon && c == 'T') toggle = true; }
+        into->add(rtosc::Port{nm, md, nullptr, [ixs, key, toggle](const char *, rtosc::RtData &d) {
+            if (!d.obj) { g_hits.push_back(ixs); return; }
+            const wrt::Spec *o = (const wrt::Spec *)d.obj;
+            if (toggle) d.reply(d.loc, o->toggle(key.c_str()) ? "T" : "F");
+            else d.reply(d.loc, "i", o->val(key.c_str()));
+        }});
     } else {
         DynPorts *sub = parse_ports(s, i, t, ixs);
         if (!sub) return false;
         int k = slash_count(name);
         into->add(rtosc::Port{nm, md, sub, [sub, k](const char *msg, rtosc::RtData &d) {
+            const char *m0 = msg;
             for (int q = 0; q < k; ++q) {
                 while (*msg && *msg != '/') ++msg;
                 msg = *msg ? msg + 1 : msg;
+            }
+            if (d.obj) {
+                bool present = false;
+                const wrt::Spec *c = ((const wrt::Spec *)d.obj)->kid(std::string(m0, msg - m0), present);
+                d.obj = (void *)c;
+                if (!c) return;
             }
             sub->dispatch(msg, d, false);
         }});
@@ -319,6 +342,40 @@ static std::string step(const std::string &line) {
                     root->dispatch(msg->c(), d, true);
                     s += ">" + join(g_hits, "+");
                 }
+            }
+            cs.push_back(s);
+        }
+        return finish(cs, ex, buf);
+    }
+    if (w[0] == "D" && w.size() >= 4) {
+        // a dynamic table walked with a runtime object
+        Tree t;
+        size_t i = 0, j = 0;
+        DynPorts *root = parse_ports(w[1], i, t, "");
+        wrt::Spec spec;
+        bytes mem;
+        if (!root || i != w[1].size() || !parse_spec(w[2], j, spec) || j != w[2].size() || !unhex(w[3], mem)) return "bad-op";
+        t.index();
+        Exact buf(mem);
+        Extra ex = extras(w, 4, buf.n);
+        size_t pref = strnlen(buf.c(), buf.n);
+        if (pref == 0) pref = 1;
+        std::vector<Call> calls;
+        rtosc::walk_ports(root, buf.c(), ex.size, &calls, walker, true, &spec, false);
+        std::vector<std::string> cs;
+        for (auto &c : calls) {
+            auto it = t.ix.find(c.port);
+            std::string s = (it == t.ix.end() ? std::string("?") : it->second) + ":" + hexs(c.addr.c_str());
+            std::string rel = "/" + (c.addr.size() >= pref ? c.addr.substr(pref) : std::string());
+            bool ok = false;
+            auto msg = zero_message(rel, first_tags(c.port->name), ok);
+            if (!ok) s += ">nomsg";
+            else {
+                g_hits.clear();
+                rtosc::RtData d;
+                d.loc = nullptr; d.loc_size = 0; d.obj = nullptr;
+                root->dispatch(msg->c(), d, true);
+                s += ">" + join(g_hits, "+");
             }
             cs.push_back(s);
         }
